@@ -44,7 +44,20 @@ impl Axecutor {
             )));
         }
 
-        let (quotient, remainder) = (ax / src_val, ax % src_val);
+        // wrapping_*: the most negative dividend divided by -1 overflows; the range check below rejects it
+        let (quotient, remainder) = (
+            ax.wrapping_div(src_val),
+            ax.wrapping_rem(src_val),
+        );
+        if ax.checked_div(src_val).is_none()
+            || quotient > i8::MAX.into()
+            || quotient < i8::MIN.into()
+        {
+            // The quotient does not fit into the destination: the CPU raises a divide error
+            return Err(AxError::from(format!(
+                "Divide error in Idiv_rm8: quotient {quotient:#x} does not fit"
+            )));
+        }
 
         self.reg_write_8(AL, quotient as u8 as u64)?;
         self.reg_write_8(AH, remainder as u8 as u64)?;
@@ -75,7 +88,20 @@ impl Axecutor {
         let dst_val =
             (self.reg_read_16(AX)? as u32 | ((self.reg_read_16(DX)? as u32) << 16)) as i32;
 
-        let (quotient, remainder) = (dst_val / src_val, dst_val % src_val);
+        // wrapping_*: the most negative dividend divided by -1 overflows; the range check below rejects it
+        let (quotient, remainder) = (
+            dst_val.wrapping_div(src_val),
+            dst_val.wrapping_rem(src_val),
+        );
+        if dst_val.checked_div(src_val).is_none()
+            || quotient > i16::MAX.into()
+            || quotient < i16::MIN.into()
+        {
+            // The quotient does not fit into the destination: the CPU raises a divide error
+            return Err(AxError::from(format!(
+                "Divide error in Idiv_rm16: quotient {quotient:#x} does not fit"
+            )));
+        }
 
         self.reg_write_16(AX, quotient as u16 as u64)?;
         self.reg_write_16(DX, remainder as u16 as u64)?;
@@ -105,7 +131,20 @@ impl Axecutor {
 
         let dst_val = (self.reg_read_32(EAX)? | (self.reg_read_32(EDX)? << 32)) as i64;
 
-        let (quotient, remainder) = (dst_val / src_val, dst_val % src_val);
+        // wrapping_*: the most negative dividend divided by -1 overflows; the range check below rejects it
+        let (quotient, remainder) = (
+            dst_val.wrapping_div(src_val),
+            dst_val.wrapping_rem(src_val),
+        );
+        if dst_val.checked_div(src_val).is_none()
+            || quotient > i32::MAX.into()
+            || quotient < i32::MIN.into()
+        {
+            // The quotient does not fit into the destination: the CPU raises a divide error
+            return Err(AxError::from(format!(
+                "Divide error in Idiv_rm32: quotient {quotient:#x} does not fit"
+            )));
+        }
 
         self.reg_write_32(EAX, quotient as u32 as u64)?;
         self.reg_write_32(EDX, remainder as u32 as u64)?;
@@ -136,7 +175,20 @@ impl Axecutor {
         let dst_val =
             (self.reg_read_64(RAX)? as u128 | ((self.reg_read_64(RDX)? as u128) << 64)) as i128;
 
-        let (quotient, remainder) = (dst_val / src_val, dst_val % src_val);
+        // wrapping_*: the most negative dividend divided by -1 overflows; the range check below rejects it
+        let (quotient, remainder) = (
+            dst_val.wrapping_div(src_val),
+            dst_val.wrapping_rem(src_val),
+        );
+        if dst_val.checked_div(src_val).is_none()
+            || quotient > i64::MAX.into()
+            || quotient < i64::MIN.into()
+        {
+            // The quotient does not fit into the destination: the CPU raises a divide error
+            return Err(AxError::from(format!(
+                "Divide error in Idiv_rm64: quotient {quotient:#x} does not fit"
+            )));
+        }
 
         self.reg_write_64(RAX, quotient as u64)?;
         self.reg_write_64(RDX, remainder as u64)?;
